@@ -343,6 +343,12 @@ func (s *StreamJoin) receiveRecord(ctx ExecutionContext, produce ProduceFn, myRe
 		}
 		key[i] = value
 	}
+	for i := range key {
+		if key[i].TypeID == octosql.TypeIDNull {
+			// The key comes from equality predicates, and NULL doesn't equal anything, so this record can't ever match.
+			return nil
+		}
+	}
 
 	if !oneStreamRemains {
 		// Update count in my record tree
